@@ -491,6 +491,139 @@ func c13Faults() []c13Case {
 	}
 }
 
+// c13RefGrid: reference / shape faults generated at EVERY position (with the fault-free lists as positive controls):
+// processor lists up to length 4 over three defined processors (rejected iff an id repeats, wherever the repeat sits),
+// a dangling reference inserted at every position of every role's list in every pipeline and of service::extensions,
+// empty / missing / null receiver and exporter lists, and connector ids that collide with a receiver or an exporter id.
+func c13RefGrid() []c13Case {
+	base := func() map[string]any {
+		m := c13Base("processors", "batch", nil)
+		m["receivers"] = map[string]any{"nop": nil, "nop/2": nil}
+		m["exporters"] = map[string]any{"nop": nil, "nop/2": nil}
+		m["processors"] = map[string]any{"batch": nil, "batch/2": nil, "memory_limiter": map[string]any{"check_interval": "1s", "limit_mib": 100}}
+		m["extensions"] = map[string]any{"zpages": nil}
+		p := m["service"].(map[string]any)["pipelines"].(map[string]any)
+		p["traces"] = map[string]any{"receivers": []any{"nop"}, "processors": []any{"batch"}, "exporters": []any{"nop"}}
+		p["logs"] = map[string]any{"receivers": []any{"nop"}, "exporters": []any{"nop"}}
+		return m
+	}
+	pipe := func(m map[string]any, n string) map[string]any {
+		return m["service"].(map[string]any)["pipelines"].(map[string]any)[n].(map[string]any)
+	}
+	var out []c13Case
+	// 1. processor lists
+	procs := []string{"batch", "batch/2", "memory_limiter"}
+	var rec func(cur []string)
+	rec = func(cur []string) {
+		if len(cur) > 0 {
+			dup := ""
+			seen := map[string]bool{}
+			for _, x := range cur {
+				if seen[x] && dup == "" {
+					dup = x
+				}
+				seen[x] = true
+			}
+			for _, pl := range []string{"traces", "logs"} {
+				m := base()
+				var l []any
+				for _, x := range cur {
+					l = append(l, x)
+				}
+				pipe(m, pl)["processors"] = l
+				if dup != "" {
+					out = append(out, c13Case{Kind: "fault", Comp: fmt.Sprintf("processor listed twice: %s processors=%v", pl, cur), Expect: dup, Config: m})
+				} else {
+					out = append(out, c13Case{Kind: "valid", Comp: fmt.Sprintf("%s processors=%v", pl, cur), Config: m})
+				}
+			}
+		}
+		if len(cur) == 4 {
+			return
+		}
+		for _, x := range procs {
+			rec(append(append([]string(nil), cur...), x))
+		}
+	}
+	rec(nil)
+	// 2. dangling references at every position
+	valid := map[string][]string{"receivers": {"nop", "nop/2"}, "processors": {"batch", "batch/2"}, "exporters": {"nop", "nop/2"}}
+	for _, pl := range []string{"traces", "logs"} {
+		for _, role := range []string{"receivers", "processors", "exporters"} {
+			for n := 0; n <= 2; n++ {
+				for pos := 0; pos <= n; pos++ {
+					for _, bad := range []string{"nosuch", valid[role][0] + "/undefined"} {
+						var l []any
+						for i := 0; i < n; i++ {
+							if i == pos {
+								l = append(l, bad)
+							}
+							l = append(l, valid[role][i])
+						}
+						if pos == n {
+							l = append(l, bad)
+						}
+						m := base()
+						pipe(m, pl)[role] = l
+						out = append(out, c13Case{Kind: "fault", Comp: fmt.Sprintf("undefined reference: %s %s=%v", pl, role, l), Expect: bad, Config: m})
+					}
+				}
+			}
+		}
+	}
+	for _, l := range [][]any{{"nosuchext"}, {"zpages", "nosuchext"}, {"nosuchext", "zpages"}, {"zpages/undefined"}, {"zpages", "zpages/undefined"}} {
+		m := base()
+		m["service"].(map[string]any)["extensions"] = l
+		out = append(out, c13Case{Kind: "fault", Comp: fmt.Sprintf("undefined reference: service extensions=%v", l), Expect: fmt.Sprint(l[len(l)-1])[:len(fmt.Sprint(l[len(l)-1]))], Config: m})
+	}
+	out[len(out)-4].Expect, out[len(out)-3].Expect = "nosuchext", "nosuchext"
+	// 3. pipelines without receivers / exporters
+	for _, pl := range []string{"traces", "logs"} {
+		for _, role := range []string{"receivers", "exporters"} {
+			for _, how := range []string{"empty", "missing", "null"} {
+				m := base()
+				switch how {
+				case "empty":
+					pipe(m, pl)[role] = []any{}
+				case "missing":
+					delete(pipe(m, pl), role)
+				case "null":
+					pipe(m, pl)[role] = nil
+				}
+				out = append(out, c13Case{Kind: "fault", Comp: fmt.Sprintf("pipeline without %s: %s (%s)", role, pl, how), Expect: role[:len(role)-1], Config: m})
+			}
+		}
+	}
+	// 4. connector id shared with a receiver / an exporter
+	for _, role := range []string{"receivers", "exporters"} {
+		for _, id := range []string{"nop", "nop/2"} {
+			for _, used := range []bool{false, true} {
+				m := base()
+				m["connectors"] = map[string]any{id: nil}
+				if used {
+					pipe(m, "traces")["exporters"] = []any{id}
+					pipe(m, "logs")["receivers"] = []any{id}
+				}
+				other := "exporters"
+				if role == "exporters" {
+					other = "receivers"
+				}
+				m[other] = map[string]any{"otlp": c13Seeds[other+"/otlp"]}
+				pipe(m, "traces")[other] = []any{"otlp"}
+				pipe(m, "logs")[other] = []any{"otlp"}
+				if used {
+					if other == "receivers" {
+						pipe(m, "logs")["receivers"] = []any{id}
+						pipe(m, "traces")["exporters"] = []any{id}
+					}
+				}
+				out = append(out, c13Case{Kind: "fault", Comp: fmt.Sprintf("connector id %q also a %s id (used=%v)", id, role[:len(role)-1], used), Expect: id, Config: m})
+			}
+		}
+	}
+	return out
+}
+
 func TestVerif(t *testing.T) {
 	ctx := vr.Start("C13", "config")
 	if ctx == nil {
@@ -531,13 +664,18 @@ func TestVerif(t *testing.T) {
 				return "unknown-key-rejected-without-naming-it", fmt.Sprintf("%s at %q: %v", c.Comp, c.Paths[0], err)
 			}
 			return "", ""
+		case "valid":
+			if _, err := c13Load(c.Config); err != nil {
+				return "valid-configuration-rejected", fmt.Sprintf("%s: %v", c.Comp, err)
+			}
+			return "", ""
 		default:
 			_, err := c13Load(c.Config)
 			if err == nil {
-				return c.Kind + "-accepted:" + c.Comp, fmt.Sprintf("%s (%s): the configuration was accepted", c.Kind, c.Comp)
+				return c.Kind + "-accepted:" + strings.SplitN(c.Comp, ":", 2)[0], fmt.Sprintf("%s (%s): the configuration was accepted", c.Kind, c.Comp)
 			}
 			if !strings.Contains(strings.ToLower(err.Error()), strings.ToLower(c.Expect)) {
-				return c.Kind + "-error-does-not-name-the-entry:" + c.Comp, fmt.Sprintf("%s (%s): error %q does not mention %q", c.Kind, c.Comp, err, c.Expect)
+				return c.Kind + "-error-does-not-name-the-entry:" + strings.SplitN(c.Comp, ":", 2)[0], fmt.Sprintf("%s (%s): error %q does not mention %q", c.Kind, c.Comp, err, c.Expect)
 			}
 			return "", ""
 		}
@@ -630,6 +768,9 @@ func TestVerif(t *testing.T) {
 		}
 	}
 	for _, f := range c13Faults() {
+		do(f)
+	}
+	for _, f := range c13RefGrid() {
 		do(f)
 	}
 	if ctx.Shard == 0 {
